@@ -37,6 +37,10 @@ pub struct Ctl {
     pub fail_at: HashSet<u64>,
     /// reject every write while set (reads work)
     pub reject_writes: bool,
+    /// reject only the next write (one-shot)
+    pub reject_next_write: bool,
+    /// keep a copy of every commit batch (and still apply it)
+    pub spy_commit: bool,
     /// capture commit batches instead of applying them
     pub capture_commit: bool,
     pub captured: Vec<Vec<DbRecord>>,
@@ -150,6 +154,10 @@ impl HookDb {
         c.seq += 1;
         let k = c.ops;
         let mut fail = c.fail_at.contains(&k) || (is_write && c.reject_writes);
+        if is_write && c.reject_next_write {
+            c.reject_next_write = false;
+            fail = true;
+        }
         if c.fail_next.remove(&pid) {
             fail = true;
         }
@@ -203,6 +211,9 @@ impl Database for HookDb {
             if c.capture_commit {
                 c.captured.push(records);
                 return Ok(());
+            }
+            if c.spy_commit {
+                c.captured.push(records.clone());
             }
         }
         self.inner.batch_set(records, state).await
